@@ -1,7 +1,6 @@
 package c10
 
 import (
-	"fmt"
 	"sort"
 	"strconv"
 	"strings"
@@ -336,38 +335,3 @@ outer:
 func sameVal(a, b *Val) bool { return a.canon() == b.canon() }
 
 func (v *Val) String() string { return v.canon() }
-
-// typeOfVal reconstructs the static type of a pool / argument value (elemHint for empty collections).
-func typeOfVal(v *Val, hint *Type) *Type {
-	switch v.K {
-	case KInt:
-		return tInt
-	case KStr:
-		return tStr
-	case KBool:
-		return tBool
-	case KNull:
-		return tNull
-	case KList, KSet:
-		var e *Type
-		if len(v.Items) > 0 {
-			var h *Type
-			if hint != nil {
-				h = hint.Elem
-			}
-			e = typeOfVal(v.Items[0], h)
-		} else if hint != nil {
-			e = hint.Elem
-		} else {
-			panic("typeOfVal: empty collection without hint")
-		}
-		return &Type{K: v.K, Elem: e}
-	case KMap:
-		var fs []Field
-		for _, k := range v.keys() {
-			fs = append(fs, Field{k, typeOfVal(v.M[k], nil)})
-		}
-		return &Type{K: KMap, Fields: fs}
-	}
-	panic(fmt.Sprintf("typeOfVal: %v", v.K))
-}
